@@ -113,13 +113,10 @@ Definition ok_C20 (items : list item) (obs : list cout * final) : bool :=
     ok_all items (fst obs) && final_eqb (snd obs) FIdle
   else true.
 
-(** * Known findings (F19), see /verif/known_findings.txt
-    1 : premature close  -> busy spin for ever, nothing is accepted any more
-    2 : >= 2048 bytes without header terminator -> the same spin
-    3 : read / write error on a connection (reset) -> the process exits.
-    The classifier returns k only for exactly that failure pattern: every
-    connection before the first non-benign one was treated correctly, nothing
-    after it was served, and the process ended in the known state. *)
+(** * Historic classifier of the three F19 failure patterns of the pre-fix loop
+    (1 premature close -> spin, 2 oversize -> spin, 3 reset -> exit).  Used
+    only by the historic theorems about [step_before_fix]; the check excuses
+    NOTHING any more (see [kf_C20]). *)
 Definition kf_of_kind (k : kind) : Z :=
   match k with
   | KEof => 1 | KOversize => 2 | KReset => 3 | KGetRst => 3
@@ -150,8 +147,12 @@ Fixpoint kf_walk (items : list item) (os : list cout) (fin : final) : Z :=
 
 Definition case := (list item * (list cout * final))%type.
 
-Definition kf_C20 (c : case) : Z :=
+Definition kf_before_fix (c : case) : Z :=
   if no_accept_err (fst c) then kf_walk (fst c) (fst (snd c)) (snd (snd c)) else 0.
+
+(** F19 is repaired (b7381c9): no known finding is left, every rejection by the
+    oracle is a violation. *)
+Definition kf_C20 (c : case) : Z := 0.
 
 (** * Correspondence *)
 Fixpoint couts_eqb (a b : list cout) : bool :=
